@@ -64,9 +64,8 @@ SeqDelimTag == <<65534, 57565>>    \* (FFFE,E0DD)
 (* dictionary facts for the tags the generators use (checked against the  *)
 (* real StandardDataDictionary by the driver's `dict` command).  "Px" is  *)
 (* the OB-or-OW class of Pixel Data; unknown tags have no entry ("none").  *)
-KnownTags ==
-  [t \in {SelTag(v) : v \in AllVR} |-> CHOOSE v \in AllVR : SelTag(v) = t]
-  @@ [t \in {PixelTag} |-> "Px"]
+OtherTags ==
+  [t \in {PixelTag} |-> "Px"]
   @@ [t \in {<<8,24>>, <<8,22>>} |-> "UI"]     \* SOPInstanceUID, SOPClassUID
   @@ [t \in {<<8,96>>} |-> "CS"]               \* Modality
   @@ [t \in {<<16,16>>} |-> "PN"]              \* PatientName
@@ -79,7 +78,10 @@ KnownTags ==
   @@ [t \in {<<40,12294>>} |-> "Lt"]           \* (0028,3006) LUTData (US or OW)
   @@ [t \in {<<8,0>>, <<16,0>>} |-> "UL"]      \* generic group length
   @@ [t \in {<<9,16>>} |-> "LO"]               \* private creator
-DictEntry(tag) == IF tag \in DOMAIN KnownTags THEN KnownTags[tag] ELSE "none"
+SelByElem == [e \in {SelElem[v] : v \in AllVR} |-> CHOOSE v \in AllVR : SelElem[v] = e]
+KnownTags == [t \in {SelTag(v) : v \in AllVR} |-> SelByElem[t[2]]] @@ OtherTags
+DictEntry(tag) == IF tag[1] = 114 THEN (IF tag[2] \in DOMAIN SelByElem THEN SelByElem[tag[2]] ELSE "none")
+                  ELSE IF tag \in DOMAIN OtherTags THEN OtherTags[tag] ELSE "none"
 (* VR an Implicit VR reader must assume (PS3.5 A.1: Pixel Data is OW;      *)
 (* multi-VR classes resolve to their default; unknown attributes are UN)   *)
 ImplicitVR(tag) == LET e == DictEntry(tag) IN
